@@ -151,7 +151,7 @@ fn redirected(tier: Tier) -> Vec<Option<NdiscRedirectedHeader<'static>>> {
     // header.payload_len = data.len(): the only shape the parser produces and the only one
     // `emit` accepts (it copies `data` into a slice of `payload_len` bytes)
     let mut v = vec![None];
-    for l in pick(tier, &[8usize, 0, 3, 40], 2) {
+    for l in pick(tier, &[8usize, 3, 0, 40], 2) {
         v.push(Some(NdiscRedirectedHeader { header: v6hdrs(Tier::Quick, l)[0], data: pat(l) }));
     }
     v
